@@ -188,6 +188,10 @@ func VerifXMLBytesContract(n int) {
 	out, err := m.Bytes("text/xml", in)
 	vOutput("out", out)
 	vOutputBool("err", err != nil)
+	s, err2 := m.String("text/xml", string(orig))
+	if err2 != nil {
+		vAssert(s == string(orig), "String: original data on error")
+	}
 	if err != nil && !rxBytesEq(out, orig) {
 		vKnown("C10-F2") // recorded finding: the minifier rewrites the caller's array in place before it meets the error
 	}
